@@ -716,9 +716,13 @@ def _check_validation_applied(ctx: Ctx, vlib: 'ValidatorLib', mv: pf.Module, ser
     if applied is None:
         ctx.need(not anywhere, f'{F_VALIDATE}::{fname}: job_validator.validate is called in a shape that is not recognised')
         # "never applied" is evidence only when no function this one calls mentions job_validator itself
-        mentions = {q for q, f in mv.functions() if q != fname and any(isinstance(x, ast.Name) and x.id == 'job_validator' for x in ast.walk(f))}
+        def uses_whole(f: ast.AST) -> bool:
+            # `job_validator` used as a whole (called, aliased, passed on) - not merely indexed for one of its entries (`job_validator['resources'][..]`)
+            sub_bases = {id(x.value) for x in ast.walk(f) if isinstance(x, ast.Subscript)}
+            return any(isinstance(x, ast.Name) and x.id == 'job_validator' and id(x) not in sub_bases for x in ast.walk(f))
+        mentions = {q for q, f in mv.functions() if q != fname and uses_whole(f)}
         called = {pf.dotted(c.func) for c in pf.calls_in(fn, into_nested_defs=True)}
-        ctx.need(not (mentions & called) and not any(isinstance(x, ast.Name) and x.id == 'job_validator' for x in ast.walk(fn)),
+        ctx.need(not (mentions & called) and not uses_whole(fn),
                  f'{F_VALIDATE}::{fname}: job_validator is used through {sorted(mentions & called) or "a local alias"}; not recognised')
         ctx.bad('R1', cons, f'{fname} never applies job_validator to the jobs: the server accepts every resource string, the client does not',
                 mv.path, fn.lineno)
